@@ -16,6 +16,7 @@ import (
 // tracks state while streaming - buffers partial data, blocks in progress
 type StreamingState struct {
 	currentBlock     *ContentBlock
+	pendingTool      *pendingToolCall         // tool call whose id / name are still arriving, block not opened yet
 	toolCallBuffers  map[int]*strings.Builder // keyed by tool index, avoids string formatting overhead
 	toolIndexToBlock map[int]int              // maps tool index to content block index for finalisation
 	messageID        string
@@ -26,6 +27,16 @@ type StreamingState struct {
 	inputTokens      int
 	outputTokens     int
 	messageStartSent bool
+}
+
+// pendingToolCall collects the id and name of a tool call until they are complete. The OpenAI
+// delta format concatenates strings per tool index, so id and name may come in successive
+// fragments (or a name in two); they are complete once the arguments, another call, text or
+// the end of the stream follows.
+type pendingToolCall struct {
+	id    string
+	name  string
+	index int
 }
 
 // convert openai sse stream to anthropic format
@@ -189,6 +200,11 @@ func (t *Translator) ensureMessageStartSent(state *StreamingState, w http.Respon
 // process text delta, starts new block if needed
 func (t *Translator) handleContentDelta(content string, state *StreamingState, w http.ResponseWriter, rc *http.ResponseController) error {
 	if err := t.ensureMessageStartSent(state, w, rc); err != nil {
+		return err
+	}
+
+	// text after a tool call header: the header is complete
+	if err := t.openPendingToolBlock(state, w, rc); err != nil {
 		return err
 	}
 
@@ -381,15 +397,30 @@ func (t *Translator) handleToolCallsDelta(toolCalls []interface{}, state *Stream
 			state.toolCallBuffers[data.toolIndex] = &strings.Builder{}
 		}
 
-		// start block when we get id + name
-		if data.id != "" && data.name != "" {
-			if err := t.initializeToolBlock(data.id, data.name, data.toolIndex, state, w, rc); err != nil {
-				return err
+		// collect id + name until the call's block can be opened; fragments of a call whose
+		// block is open already only add arguments
+		if _, started := state.toolIndexToBlock[data.toolIndex]; !started {
+			if state.pendingTool != nil && state.pendingTool.index != data.toolIndex {
+				if err := t.openPendingToolBlock(state, w, rc); err != nil {
+					return err
+				}
+			}
+			if state.pendingTool == nil {
+				state.pendingTool = &pendingToolCall{index: data.toolIndex}
+			}
+			state.pendingTool.id += data.id
+			state.pendingTool.name += data.name
+
+			// the arguments begin: id and name are complete
+			if data.arguments != "" {
+				if err := t.openPendingToolBlock(state, w, rc); err != nil {
+					return err
+				}
 			}
 		}
 
 		// buffer args chunks and send as partial_json
-		if data.arguments != "" {
+		if _, started := state.toolIndexToBlock[data.toolIndex]; started && data.arguments != "" {
 			if err := t.sendToolArgumentsDelta(data.arguments, data.toolIndex, state, w, rc); err != nil {
 				return err
 			}
@@ -399,8 +430,27 @@ func (t *Translator) handleToolCallsDelta(toolCalls []interface{}, state *Stream
 	return nil
 }
 
+// openPendingToolBlock starts the tool_use block of the call whose header has been collected.
+// A header that never got both an id and a name opens nothing (its arguments are dropped).
+func (t *Translator) openPendingToolBlock(state *StreamingState, w http.ResponseWriter, rc *http.ResponseController) error {
+	pending := state.pendingTool
+	if pending == nil {
+		return nil
+	}
+	state.pendingTool = nil
+	if pending.id == "" || pending.name == "" {
+		return nil
+	}
+	return t.initializeToolBlock(pending.id, pending.name, pending.index, state, w, rc)
+}
+
 // send final events, parse tool buffers, determine stop_reason
 func (t *Translator) finalizeStream(state *StreamingState, w http.ResponseWriter, rc *http.ResponseController, original *http.Request) error {
+	// a tool call without arguments is still waiting for its block
+	if err := t.openPendingToolBlock(state, w, rc); err != nil {
+		return err
+	}
+
 	// close current block if still open
 	if state.currentBlock != nil {
 		if err := t.writeEvent(w, "content_block_stop", map[string]interface{}{
